@@ -426,7 +426,9 @@ func r13_3(r *Report, p *Program) {
 		return
 	}
 	mcs := callsTo(f, false, "controller/common.ManageChildren")
-	okM := len(mcs) == 1 && bypass(f, mcs[0].Instr.(ssa.Instruction), func(in ssa.Instruction) bool { return in.Block() == nsm.Instr.Block() && in == nsm.Instr.(ssa.Instruction) }) == nil
+	okM := len(mcs) == 1 && bypass(f, mcs[0].Instr.(ssa.Instruction), func(in ssa.Instruction) bool {
+		return in.Block() == nsm.Instr.Block() && in == nsm.Instr.(ssa.Instruction)
+	}) == nil
 	// the loop containing it dominates
 	loops := engine.RangeLoops(f)
 	l := engine.EnclosingLoop(loops, nsm.Instr.(ssa.Instruction))
